@@ -114,9 +114,10 @@ def known_open(known, prop, key):
 
 # ---------------------------------------------------------------- running one harness process
 CRASH_PATTERNS = [
+    # an assertion in an ASan build ends as "AddressSanitizer: ABRT": name the assertion, not the signal
+    (re.compile(r"Assertion `(.*)' failed"), "assert"),
     (re.compile(r"ERROR: AddressSanitizer: ([a-zA-Z0-9_-]+)"), "asan"),
     (re.compile(r"runtime error: (.*)"), "ubsan"),
-    (re.compile(r"Assertion `(.*)' failed"), "assert"),
     (re.compile(r"terminate called after throwing an instance of '([^']+)'"), "exception"),
 ]
 
